@@ -223,7 +223,13 @@ func (n *Node) start() {
 	})
 	gs.RegisterIncomingBlockHook(func(p peer.ID, r graphsync.ResponseData, b graphsync.BlockData, a graphsync.IncomingBlockHookActions) {
 		n.mu.Lock()
-		n.InBlocks = append(n.InBlocks, HookCall{Step: w.Step, Kind: "in-block", Peer: name(p), Req: r.RequestID(), Cid: linkStr(b.Link()), Index: b.Index()})
+		var rexts []string
+		if en, ok := r.(interface {
+			ExtensionNames() []graphsync.ExtensionName
+		}); ok {
+			rexts = extNames(en.ExtensionNames())
+		}
+		n.InBlocks = append(n.InBlocks, HookCall{Step: w.Step, Kind: "in-block", Peer: name(p), Req: r.RequestID(), Cid: linkStr(b.Link()), Index: b.Index(), Status: r.Status(), Exts: rexts})
 		n.mu.Unlock()
 		w.Effect("hook %s in-block %s #%d %s wire=%d", n.Name, shortReq(r.RequestID()), b.Index(), linkStr(b.Link()), b.BlockSizeOnWire())
 		if n.OnIncomingBlock != nil {
